@@ -269,6 +269,87 @@ def rhs_loads(ck, sh, mm, gname):
         prove_paths(ck, 'rhs-%s-p%d' % (gname, feed + 1), fn, goals, replay, max_paths=4)
 
 
+def two_sources(ck, sh, mm, gname):
+    """(b') two sources at once, one on a pulse on the plane and one above it, in both registration orders:
+    the right-hand side over ground corresponds entry by entry to that of antenna + image (2V on the plane,
+    V and mirrored V above it) for all complex V1, V2."""
+    M = sh.mininec
+    m0 = catalogue.build(sh.mininec, gname)
+    gp = [k for k, p in enumerate(m0.pulses) if is_gnd(p)]
+    ap = [k for k, p in enumerate(m0.pulses) if not is_gnd(p)]
+    if not gp or not ap:
+        return
+    for order in ((gp[0], ap[-1]), (ap[-1], gp[0]), (ap[0], ap[-1])):
+        if order[0] == order[1]:
+            continue
+
+        def fn(order=order):
+            V = [SC.var('V1'), SC.var('V2')]
+            mg = catalogue.build(M, gname)
+            mf = free_space_pair(M, gname)
+            try:
+                mo, mi = maps(mg, mf)
+            except MapFailure as e:
+                return dict(inputs=dict(V=V), mapfail=str(e))
+            with symx.object_arrays():
+                for v, k in zip(V, order):
+                    mg.register_source(M.Excitation(v), k)
+                    pf, s = mo[k]
+                    if is_gnd(mg.pulses[k]):
+                        mf.register_source(M.Excitation(v * (2 * s)), pf)
+                    else:
+                        qb, sb = mi[k]
+                        mf.register_source(M.Excitation(v * s), pf)
+                        mf.register_source(M.Excitation(v * sb), qb)
+                mg.compute_rhs()
+                mf.compute_rhs()
+            return dict(inputs=dict(V=V), mg=mg, mf=mf, mo=mo, mi=mi)
+
+        def goals(o):
+            if o.get('mapfail'):
+                return [('every pulse over ground has its counterpart(s) in antenna + image', z3.BoolVal(False))]
+            mg, mf, mo, mi = o['mg'], o['mf'], o['mo'], o['mi']
+            conj = []
+            for k in range(len(mg.pulses)):
+                pf, s = mo[k]
+                conj.append(core.eq_term(SC.lift(mf.rhs[pf]) * s, mg.rhs[k]))
+                if not is_gnd(mg.pulses[k]):
+                    qb, sb = mi[k]
+                    conj.append(core.eq_term(SC.lift(mf.rhs[qb]) * sb, mg.rhs[k]))
+            return [('two sources (pulses %d then %d): right-hand side over ground = that of antenna + image' % (order[0] + 1, order[1] + 1), z3.And(*conj))]
+
+        def replay(conc, gn, out, order=order):
+            V = [complex(v) for v in conc['V']]
+            mg = catalogue.build(mm, gname)
+            mf = free_space_pair(mm, gname)
+            try:
+                mo, mi = maps(mg, mf)
+            except MapFailure:
+                return replay_sentence(mm, gname, 1)
+            for v, k in zip(V, order):
+                mg.register_source(mm.Excitation(v), k)
+                pf, s = mo[k]
+                if is_gnd(mg.pulses[k]):
+                    mf.register_source(mm.Excitation(2 * v * s), pf)
+                else:
+                    qb, sb = mi[k]
+                    mf.register_source(mm.Excitation(v * s), pf)
+                    mf.register_source(mm.Excitation(v * sb), qb)
+            mg.compute()
+            mf.compute()
+            cond = np.linalg.cond(np.asarray(mf.Z, dtype=complex))
+            tol = 5e-4 * max(1.0, cond / 1e3)
+            ig, i_f = np.asarray(mg.current), np.asarray(mf.current)
+            for k in range(len(ig)):
+                pf, s = mo[k]
+                if abs(i_f[pf] * s - ig[k]) > tol * np.abs(ig).max():
+                    return ('C03:currents:two-sources', '%s, sources %r on pulses %s (in this order): current of pulse %d over ground %r, '
+                            'in the free-space pair %r' % (gname, V, [o_ + 1 for o_ in order], k + 1, complex(ig[k]), complex(i_f[pf] * s)),
+                            dict(kind='two-sources', geometry=gname, order=list(order)))
+            return None
+        prove_paths(ck, 'two-sources-%s-%d-%d' % (gname, order[0] + 1, order[1] + 1), fn, goals, replay, max_paths=4)
+
+
 def far(ck, sh, mm, gname):
     """(c) far field of the ground model = far field of the free-space pair with image currents."""
     M = sh.mininec
@@ -347,10 +428,12 @@ def main(args):
     if ck.tier == 'quick':
         parts = [('blocks', (g, 1)) for g in ('G7', 'G8', 'G9', 'G10', 'G14', 'G16')]
         parts += [('rhs_loads', (g,)) for g in ('G8', 'G9')]
+        parts += [('two_sources', (g,)) for g in ('G8', 'G9')]
         parts += [('far', (g,)) for g in ('G8', 'G9', 'G14')]
     else:
         parts = [('blocks', (g, 2)) for g in ('G7', 'G8', 'G9', 'G10', 'G14', 'G15', 'G16')]
         parts += [('rhs_loads', (g,)) for g in ('G7', 'G8', 'G9', 'G10', 'G14', 'G16')]
+        parts += [('two_sources', (g,)) for g in ('G7', 'G8', 'G9', 'G10', 'G16')]
         parts += [('far', (g,)) for g in ('G7', 'G8', 'G9', 'G10', 'G14', 'G15', 'G16')]
     run_parallel(ck, 'checks.c03', parts)
     ck.assumptions += [
